@@ -56,6 +56,7 @@ class SimTablePolicy(AbstractActorCriticPolicy):
     logits: Float[Array, "NS L"]
     kbias: Float[Array, "KB L"]
     values: Float[Array, " NS"]
+    vbias: Float[Array, " KB"]
     scale: Float[Array, "NS d"]
 
     kind: str = eqx.field(static=True)
@@ -70,10 +71,15 @@ class SimTablePolicy(AbstractActorCriticPolicy):
         self.logits = jnp.asarray(tables["logits"], dtype=float)
         self.kbias = jnp.asarray(tables["kbias"], dtype=float)
         self.values = jnp.asarray(tables["values"], dtype=float)
+        self.vbias = jnp.asarray(tables.get("vbias", [0.0] * KB), dtype=float)
         self.scale = jnp.asarray(tables["scale"], dtype=float)
 
     def reset(self, *, key: Key[Array, ""]) -> SimPolicyState:
         return SimPolicyState(jnp.array(0, dtype=int))
+
+    def _value(self, state: SimPolicyState, observation):
+        # the critic depends on the policy's own state too, so WHICH policy state a value is computed with is observable
+        return self.values[obs_id(observation)] + self.vbias[jnp.minimum(state.k, KB - 1)]
 
     def _dist(self, state: SimPolicyState, observation, action_mask=None):
         s = obs_id(observation)
@@ -103,13 +109,13 @@ class SimTablePolicy(AbstractActorCriticPolicy):
     def action_and_value(self, state, observation, *, key, action_mask=None):
         d = self._dist(state, observation, action_mask)
         action, log_prob = d.sample_and_log_prob(key)
-        value = self.values[obs_id(observation)]
+        value = self._value(state, observation)
         return SimPolicyState(state.k + 1), action, value, log_prob.sum().squeeze()
 
     def evaluate_action(self, state, observation, action, *, action_mask=None):
         d = self._dist(state, observation, action_mask)
         log_prob = d.log_prob(action)
-        value = self.values[obs_id(observation)]
+        value = self._value(state, observation)
         try:
             entropy = d.entropy().sum().squeeze()
         except NotImplementedError:
@@ -117,7 +123,7 @@ class SimTablePolicy(AbstractActorCriticPolicy):
         return SimPolicyState(state.k + 1), value, log_prob.sum().squeeze(), entropy
 
     def value(self, state, observation):
-        return SimPolicyState(state.k + 1), self.values[obs_id(observation)]
+        return SimPolicyState(state.k + 1), self._value(state, observation)
 
 
 def gen_policy_tables(rng, *, NS: int, kind: str, comps: tuple[int, ...], oob: float = 0.0) -> dict:
@@ -152,11 +158,15 @@ def gen_policy_tables(rng, *, NS: int, kind: str, comps: tuple[int, ...], oob: f
     # values pairwise >= 0.25 apart
     vals = rng.sample(range(-16, 17), NS)
     values = [v / 4.0 for v in vals]
-    return {"logits": logits, "kbias": kbias, "values": values, "scale": scale}
+    vb = rng.choice([0.0, 0.0, 1.0])
+    vbias = [0.0] + [rng.randint(-8, 8) / 8.0 * vb for _ in range(KB - 1)]
+    return {"logits": logits, "kbias": kbias, "values": values, "vbias": vbias, "scale": scale}
 
 
 def with_policy_tables(policy: SimTablePolicy, tables: dict) -> SimTablePolicy:
-    fields = ["logits", "kbias", "values", "scale"]
+    fields = ["logits", "kbias", "values", "vbias", "scale"]
+    tables = dict(tables)
+    tables.setdefault("vbias", [0.0] * KB)
     new = [jnp.asarray(tables[f], dtype=float) for f in fields]
     return eqx.tree_at(lambda p: [getattr(p, f) for f in fields], policy, new)
 
